@@ -34,6 +34,9 @@ func initChannel() {
 				if !ok {
 					return value.Undefined, value.Ref(value.NewError(value.OutOfRangeErrorClass, "channel capacity is too large"))
 				}
+				if n < 0 {
+					return value.Undefined, value.Ref(value.NewError(value.OutOfRangeErrorClass, "channel capacity cannot be negative"))
+				}
 			}
 			self := value.NewChannelOfValue(n)
 			return value.Ref(self), value.Undefined
